@@ -676,6 +676,13 @@ func (db *DB) searchAll(o Object, field, operator string, value interface{}, con
 		return &Search{db: db, err: err}
 	}
 
+	// the operator is checked first as evaluate panics on unknown operator
+	switch operator {
+	case "=", "!=", ">", ">=", "<", "<=", "~=":
+	default:
+		return &Search{db: db, err: fmt.Errorf("%w %s", ErrUnkownSearchOperator, operator)}
+	}
+
 	// we go through the iterator
 	fp := fieldPath(field)
 	searchType := search.valueTypeString()
